@@ -31,6 +31,6 @@ Definition testnet_keeps_index : list (family * list N) := [
    network.  The value is read by nothing (the encoders use P2WPKHAddrConst.WITNESS_VER), so no
    address changes, but the registry constant is wrong.  Repair: fixes/F19.diff.
    >>> EMPTY THIS LIST (`:= [].`) once fixes/F19.diff is applied to /repo. <<< *)
-Definition cconf_offenders : list (list N * list N * pval * pval) := [
-  (str "BitcoinRegTest", str "p2wpkh_wit_ver", PI 1, PI 0)
-].
+Definition cconf_offenders : list (list N * list N * pval * pval) := [].
+(* F19 was repaired in /repo ("fix: BitcoinRegTest P2WPKH witness version constant is 0"); the
+   former entry was (str "BitcoinRegTest", str "p2wpkh_wit_ver", PI 1, PI 0). *)
